@@ -269,6 +269,17 @@ func diff(path string, w, g any, out *[]D) {
 			if g == nil && len(x) == 0 {
 				return
 			}
+			if _, isMap := IsMap(w); g == nil && !isMap {
+				// an object every member of which may be absent is the same observation as no object at all
+				// (canonical trees drop nil members, and an object without members is dropped in turn)
+				var sub []D
+				for k, mv := range x {
+					diff(path+"."+k, mv, nil, &sub)
+				}
+				if len(sub) == 0 {
+					return
+				}
+			}
 			*out = append(*out, D{Path: path, Want: w, Got: g})
 			return
 		}
